@@ -171,6 +171,14 @@ impl Project for cascette_formats::patch_index::PatchIndex {
         // header_size / data_size / block descriptors are layout
         format!("v={} k={} kd={:?} entries={:?}", self.header.version, self.key_size, self.header.key_data, self.entries)
     }
+    fn diagnose(&self) -> Option<&'static str> {
+        // build() goes through PatchIndexBuilder, which writes an extra header of one zero byte
+        if self.header.key_size != 0 || self.header.key_data != [0u8; 16] || !self.header.extra_data.is_empty() {
+            Some("extra-header-key-or-data-dropped-on-rebuild")
+        } else {
+            None
+        }
+    }
 }
 impl Project for cascette_formats::zbsdiff::ZbsDiff {
     fn project(&self) -> String {
